@@ -17,13 +17,96 @@ pub fn tid() -> Option<usize> {
     TID.with(|c| c.get())
 }
 
-static GLOBAL: RwLock<Option<Arc<Sched>>> = RwLock::new(None);
+/// What the hooks (storage probe, VFS, in-memory mutex) need from a scheduler. Implemented by
+/// the in-process `Sched` and by `RemoteSched` (an agent process talking to a coordinator).
+pub trait SchedApi: Send + Sync {
+    fn point(&self, label: &str);
+    fn blocked(&self, on: WaitOn, label: &str);
+    fn release(&self, what: WaitOn);
+}
 
-pub fn set_global(s: Option<Arc<Sched>>) {
+static GLOBAL: RwLock<Option<Arc<dyn SchedApi>>> = RwLock::new(None);
+
+pub fn set_global(s: Option<Arc<dyn SchedApi>>) {
     *GLOBAL.write().unwrap() = s;
 }
-pub fn global() -> Option<Arc<Sched>> {
+pub fn global() -> Option<Arc<dyn SchedApi>> {
     GLOBAL.read().unwrap().clone()
+}
+
+impl WaitOn {
+    pub fn to_json(&self) -> serde_json::Value {
+        match self {
+            WaitOn::MemMutex => serde_json::json!("mem"),
+            WaitOn::Shm { offset, n } => serde_json::json!({"shm": [offset, n]}),
+            WaitOn::File => serde_json::json!("file"),
+            WaitOn::Any => serde_json::json!("any"),
+        }
+    }
+    pub fn from_json(v: &serde_json::Value) -> WaitOn {
+        if let Some(a) = v["shm"].as_array() {
+            return WaitOn::Shm { offset: a[0].as_i64().unwrap_or(0) as i32, n: a[1].as_i64().unwrap_or(1) as i32 };
+        }
+        match v.as_str() {
+            Some("mem") => WaitOn::MemMutex,
+            Some("file") => WaitOn::File,
+            _ => WaitOn::Any,
+        }
+    }
+}
+
+/// Scheduler proxy inside an agent process: every call becomes a line to the coordinator;
+/// `point` and `blocked` wait for its "go".
+pub struct RemoteSched {
+    pub io: Mutex<(std::io::Stdout, std::io::Stdin)>,
+}
+
+impl RemoteSched {
+    fn send(&self, v: serde_json::Value, wait: bool) {
+        use std::io::{BufRead, Write};
+        let g = self.io.lock().unwrap();
+        let mut out = g.0.lock();
+        let _ = writeln!(out, "{}", v);
+        let _ = out.flush();
+        drop(out);
+        if wait {
+            let mut line = String::new();
+            let _ = g.1.lock().read_line(&mut line);
+        }
+    }
+}
+
+impl SchedApi for RemoteSched {
+    fn point(&self, label: &str) {
+        if tid().is_none() {
+            return;
+        }
+        self.send(serde_json::json!({"ev": "point", "label": label}), true);
+    }
+    fn blocked(&self, on: WaitOn, label: &str) {
+        if tid().is_none() {
+            return;
+        }
+        self.send(serde_json::json!({"ev": "blocked", "on": on.to_json(), "label": label}), true);
+    }
+    fn release(&self, what: WaitOn) {
+        if tid().is_none() {
+            return;
+        }
+        self.send(serde_json::json!({"ev": "release", "what": what.to_json()}), false);
+    }
+}
+
+impl SchedApi for Sched {
+    fn point(&self, label: &str) {
+        Sched::point(self, label)
+    }
+    fn blocked(&self, on: WaitOn, label: &str) {
+        Sched::blocked(self, on, label)
+    }
+    fn release(&self, what: WaitOn) {
+        Sched::release(self, what)
+    }
 }
 
 /// What a blocked thread is waiting for.
